@@ -9,10 +9,15 @@
 // op lines
 //   map     IT PAT LAY CTOR EXTS [STRIDES]      extents construction + whole mapping table
 //   conv    IT PAT LAY KIND EXTS [STRIDES]      KIND: stride | dyn | lr | toleft | toright
-//   mdspan  IT PAT LAY ACC  EXTS [STRIDES]      ACC: call | arr | span | br
+//   mdspan  IT PAT LAY ACC  EXTS [STRIDES]      ACC: access form call | arr | span | br, or constructor form
+//                                               acc (custom accessor + data handle, element type long long) | vdyn | vfull |
+//                                               adyn | sdyn | sfull (variadic/array/span of rank_dynamic resp. rank extents) |
+//                                               def (default-construct, then assign) | swap
 //   mdarray IT PAT LAY CTOR ACC EXTS            CTOR: ext extval map mapval cont contmv copy conv span spanal strided alloc allocval variadic
 //                                               arrext arrval arrcont (std::array container, fully static extents)
-//   span    N EXT : op;op;...                   op: first c | last c | sub o c|d | tfirst c | tlast c | tsub o c|d | at i | fb | iter | conv
+//                                               contmve extvalal contal contmval mapcontal mapcontmval copyal swap default
+//   span    N EXT [VIA] : op;op;...             op: first c | last c | sub o c|d | tfirst c | tlast c | tsub o c|d | at i | fb | iter | conv
+//                                               VIA: ptr (default) | iters | range | carr | stdarr | def  (constructor of the initial span)
 // IT: int|size|short, PAT: one char per dimension, 'd' = dynamic_extent, digit = static extent, "-" = rank 0,
 // LAY: left|right|stride, EXTS/STRIDES: [a,b,c] (all `rank` extents; the constructor form decides what is passed).
 #include <config.h>
@@ -117,6 +122,8 @@ static bool stridesSortedUnique(const VL& ext, const VL& str) {
   return true;
 }
 
+static VL canonStrides(int lay, const VL& ext);
+
 struct MapObs {
   VL ext, str, offs;
   long rss = 0;
@@ -159,6 +166,7 @@ static std::string checkMap(int lay, const VL& ext, const VL& str, const MapObs&
     if (o.rss != want) return "required_span_size " + std::to_string(o.rss) + " expected " + std::to_string(want);
     // (for strides that do not make a unique mapping - a violated precondition - nothing is demanded of is_exhaustive)
     if (o.exh && (long)distinct.size() == n && (long)distinct.size() != o.rss) return "is_exhaustive() true but the range has gaps";
+    if (!o.exh && n > 0 && (long)distinct.size() == n && n == o.rss) return "is_exhaustive() false but the mapping fills its range";
   }
   // strides: definition and unit steps
   if (!ext.empty()) {
@@ -216,6 +224,16 @@ static VL strictList(const std::string& s) {
 
 template <class L> constexpr bool isStride = std::is_same_v<L, S::layout_stride>;
 template <class I> using OtherIndex = std::conditional_t<std::is_same_v<I, int>, std::size_t, int>;
+// can a strided mapping be built from another mapping type over these extents?  (true for every rank once
+// fixes/C14_stride_rank0.patch is applied; without it rank 0 is missing, which is reported as a failure)
+template <class E> constexpr bool strideFromAny = std::is_constructible_v<S::layout_stride::mapping<E>, const S::layout_right::mapping<E>&>;
+static const char* const RANK0_MSG = "layout_stride::mapping of rank 0 cannot be constructed from another rank-0 mapping (nor default-constructed)";
+static Result rank0Failure() {
+  Result r;
+  r.impl = "uncompilable";
+  r.oracle = std::string("FAIL ") + RANK0_MSG;
+  return r;
+}
 
 template <class I, std::size_t R> std::array<I, R> toArr(const VL& t) {
   std::array<I, R> a{};
@@ -260,9 +278,14 @@ template <class E> E makeExt(const std::string& ctor, const VL& full) {
   throw BadOp{};
 }
 
-template <class L, class E> typename L::template mapping<E> makeMap(const E& e, const VL& str) {
+template <class L, class E> typename L::template mapping<E> makeMap(const E& e, const VL& str, bool viaSpan = false) {
   using M = typename L::template mapping<E>;
-  if constexpr (isStride<L>) return M(e, toArr<typename E::index_type, E::rank()>(str));
+  if constexpr (isStride<L>) {
+    // strides given in another integer type than index_type, as std::array or as Std::span
+    auto sa = toArr<OtherIndex<typename E::index_type>, E::rank()>(str);
+    if (viaSpan) return M(e, S::span<OtherIndex<typename E::index_type>, E::rank()>(sa));
+    return M(e, sa);
+  }
   else return M(e);
 }
 
@@ -286,9 +309,19 @@ static void orFail(Result& r, const std::string& what, const std::string& msg) {
   if (!msg.empty() && r.oracle.rfind("FAIL", 0) != 0) r.oracle = "FAIL " + what + ": " + msg;
 }
 
+// the extents `ext` with every dynamic extent replaced by 0 (what value-initialised extents must report)
+template <class E> VL defaultExt() {
+  VL d;
+  for (std::size_t r = 0; r < E::rank(); ++r) d.push_back(E::static_extent(r) == D ? 0 : long(E::static_extent(r)));
+  return d;
+}
+
 template <class E, class L> Result doMap(const Ctx& c) {
+  using I = typename E::index_type;
+  using M = typename L::template mapping<E>;
+  constexpr std::size_t R = E::rank();
   E e = makeExt<E>(c.x, c.ext);
-  auto m = makeMap<L>(e, c.str);
+  auto m = makeMap<L>(e, c.str, c.x[0] == 's');
   MapObs o = observe(m);
   VL sext;
   long rdyn = 0;
@@ -301,6 +334,47 @@ template <class E, class L> Result doMap(const Ctx& c) {
   if (E::rank() != c.patv.size() || long(E::rank_dynamic()) != rdyn || sext != c.patv) orFail(res, "extents", "static pattern misreported");
   orFail(res, "mapping", checkMap(c.lay, c.ext, c.str, o));
   if (m.is_unique() != true || m.is_strided() != true) orFail(res, "mapping", "is_unique/is_strided");
+  if constexpr (isStride<L>) {
+    VL sv;
+    for (auto x : m.strides()) sv.push_back(long(x));
+    if (sv != c.str) orFail(res, "mapping", "strides() differs from the strides given");
+    if (stridesSortedUnique(c.ext, c.str)) stat("stride_unique_by_criterion"); else stat("stride_outside_criterion");
+    if (o.rss > (long)o.offs.size()) stat("stride_padded");
+    if (o.exh) stat("stride_exhaustive");
+  }
+  // comparisons: equal to an equal object of another extents type, different from a perturbed one
+  {
+    using E2 = S::dextents<OtherIndex<I>, R>;
+    E2 same = E2(toArr<OtherIndex<I>, R>(c.ext));
+    if (!(e == same) || !(same == e) || (e != same)) orFail(res, "extents", "operator== false for equal extents of another type");
+    if (!(m == M(m))) orFail(res, "mapping", "operator== false for a copy");
+    for (std::size_t r = 0; r < R; ++r) {
+      VL pe = c.ext;
+      pe[r] += 1;
+      E2 other = E2(toArr<OtherIndex<I>, R>(pe));
+      if (e == other || other == e) orFail(res, "extents", "operator== true although extent " + std::to_string(r) + " differs");
+      if (E::static_extent(r) == D) {
+        E e3 = makeExt<E>("afull", pe);
+        if (makeMap<L>(e3, c.str) == m) orFail(res, "mapping", "operator== true although extent " + std::to_string(r) + " differs");
+      }
+    }
+    if constexpr (R > 0) {
+      S::dextents<OtherIndex<I>, R - 1> shorter{};
+      if (e == shorter) orFail(res, "extents", "operator== true for different ranks");
+    }
+  }
+  // value-initialised objects: static extents as declared, dynamic extents 0; the default strided mapping is the
+  // row-major one
+  if constexpr (!isStride<L> || strideFromAny<E>) {
+    E e0{};
+    M m0{};
+    VL d0 = defaultExt<E>();
+    MapObs o0 = observe(m0);
+    VL got;
+    for (std::size_t r = 0; r < R; ++r) got.push_back(long(e0.extent(r)));
+    if (got != d0) orFail(res, "extents", "value-initialised extents report " + listStr(got));
+    orFail(res, "default mapping", checkMap(c.lay, d0, canonStrides(RIGHT, d0), o0));
+  } else orFail(res, "default mapping", RANK0_MSG);
   return res;
 }
 
@@ -317,10 +391,8 @@ template <class E, class L> Result doConv(const Ctx& c) {
     if (o.offs != src.offs) orFail(res, what, "converted mapping addresses differently: " + listStr(o.offs) + " vs " + listStr(src.offs));
     if (o.rss != src.rss) orFail(res, what, "required_span_size changed");
   };
-  // rank 0: layout_stride::mapping has no constructor from another mapping type (it needs M::stride(r)), so the
-  // conversions into/between strided mappings of rank 0 do not exist
   if (c.x == "stride") {
-    if constexpr (R > 0 || isStride<L>) {
+    if constexpr (isStride<L> || strideFromAny<E>) {
       S::layout_stride::mapping<E> mid(m);
       M fin(mid);
       MapObs om = observe(mid), of = observe(fin);
@@ -332,10 +404,10 @@ template <class E, class L> Result doConv(const Ctx& c) {
       if constexpr (isStride<L>)
         if (!(mid == m)) orFail(res, "to stride", "operator== false");
       return res;
-    } else throw BadOp{};
+    } else return rank0Failure();
   }
   if (c.x == "dyn") {
-   if constexpr (R > 0 || !isStride<L>) {
+   if constexpr (!isStride<L> || strideFromAny<E>) {
     using E2 = S::dextents<OtherIndex<I>, R>;
     typename L::template mapping<E2> mid(m);
     M fin(mid);
@@ -346,7 +418,7 @@ template <class E, class L> Result doConv(const Ctx& c) {
     same("to dextents", om, c.lay, c.str);
     same("and back", of, c.lay, c.str);
     return res;
-   } else throw BadOp{};
+   } else return rank0Failure();
   }
   if (c.x == "lr") {
     if constexpr (R <= 1 && !isStride<L>) {
@@ -384,12 +456,84 @@ template <class E, class L> Result doConv(const Ctx& c) {
 static bool validAcc(const std::string& a, std::size_t rank) {
   return a == "call" || a == "arr" || a == "span" || (a == "br" && rank == 1);
 }
+static bool isCtorForm(const std::string& a) {
+  return a == "vdyn" || a == "vfull" || a == "adyn" || a == "sdyn" || a == "sfull" || a == "def" || a == "swap";
+}
+
+// a data handle that is not a raw pointer and an accessor policy that records every offset it is asked for
+template <class T> struct Handle {
+  T* base = nullptr;
+  Handle() = default;
+  explicit Handle(T* b) : base(b) {}
+  template <class U, std::enable_if_t<std::is_convertible_v<U (*)[], T (*)[]>, int> = 0>
+  Handle(const Handle<U>& o) : base(o.base) {}
+};
+template <class T> struct RecAcc {
+  using element_type = T;
+  using reference = T&;
+  using data_handle_type = Handle<T>;
+  using offset_policy = RecAcc;
+  std::vector<std::size_t>* log = nullptr;
+  RecAcc() = default;
+  explicit RecAcc(std::vector<std::size_t>* l) : log(l) {}
+  template <class U, std::enable_if_t<std::is_convertible_v<U (*)[], T (*)[]>, int> = 0>
+  RecAcc(const RecAcc<U>& o) : log(o.log) {}
+  reference access(data_handle_type p, std::size_t i) const {
+    if (log) log->push_back(i);
+    return p.base[i];
+  }
+  data_handle_type offset(data_handle_type p, std::size_t i) const { return data_handle_type(p.base + i); }
+};
+
+// the view in the requested constructor form (strided mappings cannot be built from extents: always (p, mapping))
+template <class MS, class E, class L, class M> MS buildMdspan(const Ctx& c, int* p, const E& e, const M& m, Result& res) {
+  using I = typename E::index_type;
+  constexpr std::size_t R = E::rank(), RD = E::rank_dynamic();
+  const std::string& f = c.x;
+  if constexpr (!isStride<L>) {
+    std::array<I, R> af = toArr<I, R>(c.ext);
+    std::array<I, RD> ad{};
+    for (std::size_t r = 0, j = 0; r < R; ++r)
+      if (E::static_extent(r) == D) ad[j++] = I(c.ext[r]);
+    if (f == "arr") return MS(p, e);
+    if (f == "span") return MS(p, af);
+    if (f == "vfull") return std::apply([&](auto... x) { return MS(p, x...); }, af);
+    if (f == "vdyn") return std::apply([&](auto... x) { return MS(p, x...); }, ad);
+    if (f == "adyn") return MS(p, ad);
+    if (f == "sdyn") return MS(p, S::span<I, RD>(ad));
+    if (f == "sfull") return MS(p, S::span<I, R>(af));
+  }
+  if (f == "def") {
+    if constexpr (RD > 0) {
+      MS d;
+      VL got;
+      for (std::size_t r = 0; r < R; ++r) got.push_back(long(d.extent(r)));
+      if (got != defaultExt<E>() || d.size() != 0 || !d.empty() || d.data_handle() != nullptr)
+        orFail(res, "mdspan", "default-constructed view is not the empty view over value-initialised extents");
+      d = MS(p, m);
+      return d;
+    } else throw BadOp{};
+  }
+  if (f == "swap") {
+    MS a(p, m), b(static_cast<int*>(nullptr), M{});
+    swap(a, b);
+    VL got;
+    for (std::size_t r = 0; r < R; ++r) got.push_back(long(a.extent(r)));
+    if (a.data_handle() != nullptr || got != defaultExt<E>()) orFail(res, "mdspan", "swap did not exchange handle and mapping");
+    return b;
+  }
+  return MS(p, m);
+}
+
+template <class E, class L> Result doMdspanAcc(const Ctx& c);
 
 template <class E, class L> Result doMdspan(const Ctx& c) {
   using I = typename E::index_type;
   using M = typename L::template mapping<E>;
   constexpr std::size_t R = E::rank();
-  if (!validAcc(c.x, R)) throw BadOp{};
+  if (c.x == "acc") return doMdspanAcc<E, L>(c);
+  if (!validAcc(c.x, R) && !isCtorForm(c.x)) throw BadOp{};
+  const std::string acc = isCtorForm(c.x) ? "call" : c.x;
   E e = makeExt<E>("afull", c.ext);
   M m = makeMap<L>(e, c.str);
   long rss = long(m.required_span_size());
@@ -397,34 +541,29 @@ template <class E, class L> Result doMdspan(const Ctx& c) {
   std::vector<int> v(rss);
   for (long k = 0; k < rss; ++k) v[k] = int(k);
   using MS = S::mdspan<int, E, L>;
-  std::optional<MS> msO;
-  if constexpr (!isStride<L>) {
-    if (c.x == "arr") msO.emplace(v.data(), e);
-    else if (c.x == "span") msO.emplace(v.data(), toArr<I, R>(c.ext));
-    else msO.emplace(v.data(), m);
-  } else msO.emplace(v.data(), m);
-  MS& ms = *msO;
   Result res;
+  MS ms = buildMdspan<MS, E, L, M>(c, v.data(), e, m, res);
+  if (ms.data_handle() != v.data()) orFail(res, "mdspan", "data_handle()");
   auto tuples = tuplesRowMajor(c.ext);
   auto exp = expectedOffsets(c.lay, c.ext, c.str);
   VL elems, conv, ext;
   std::vector<int> shadow(v);
   for (auto& t : tuples) {
-    int& ref = accessAt(ms, c.x, toArr<I, R>(t));
+    int& ref = accessAt(ms, acc, toArr<I, R>(t));
     if (&ref != v.data() + callMap(m, t)) orFail(res, "mdspan", "reference is not data_handle + mapping(idx) at " + listStr(t));
     if (&ref != v.data() + exp[t]) orFail(res, "mdspan", "reference is not the designated element at " + listStr(t));
     elems.push_back(ref);
   }
   long n = 0;
   for (auto& t : tuples) {
-    accessAt(ms, c.x, toArr<I, R>(t)) = int(100 + n);
+    accessAt(ms, acc, toArr<I, R>(t)) = int(100 + n);
     if (exp[t] >= 0 && exp[t] < rss) shadow[exp[t]] = int(100 + n);
     ++n;
   }
   if (shadow != v) orFail(res, "mdspan", "writes through the view did not hit exactly the designated elements");
   MS ms2 = ms;  // copy
-  // conversion of element, extents and index type (rank-0 strided mappings have no converting constructor)
-  using E3 = std::conditional_t<(R > 0 || !isStride<L>), S::dextents<OtherIndex<I>, R>, E>;
+  // conversion of element, extents and index type
+  using E3 = std::conditional_t<(!isStride<L> || strideFromAny<E>), S::dextents<OtherIndex<I>, R>, E>;
   S::mdspan<const int, E3, L> ms3(ms);
   for (auto& t : tuples) {
     const int& r2 = accessAt(ms2, "call", toArr<I, R>(t));
@@ -437,10 +576,64 @@ template <class E, class L> Result doMdspan(const Ctx& c) {
       ext.push_back(long(ms.extent(r)));
       if (ms.extent(r) != ms.extents().extent(r) || long(ms3.extent(r)) != long(ms.extent(r))) orFail(res, "mdspan", "extent() inconsistent");
       if (long(ms.stride(r)) != long(m.stride(r))) orFail(res, "mdspan", "stride() inconsistent");
+      if (ms.static_extent(r) != E::static_extent(r)) orFail(res, "mdspan", "static_extent()");
     }
   if (ext != c.ext) orFail(res, "mdspan", "extents");
   if (long(ms.size()) != (long)tuples.size() || ms.empty() != tuples.empty() || long(ms3.size()) != long(ms.size())) orFail(res, "mdspan", "size()/empty() do not count the index tuples");
   if (ms.rank() != R || ms.rank_dynamic() != E::rank_dynamic()) orFail(res, "mdspan", "rank");
+  if (ms.is_exhaustive() != m.is_exhaustive() || !ms.is_unique() || !ms.is_strided()) orFail(res, "mdspan", "is_exhaustive/is_unique/is_strided differ from the mapping");
+  res.impl = "size=" + std::to_string(long(ms.size())) + " empty=" + (ms.empty() ? "true" : "false") + " ext=" + listStr(ext) +
+             " elems=" + listStr(elems) + " store=" + listStr(v) + " conv=" + listStr(conv);
+  return res;
+}
+
+// the same observations through a view with a custom accessor policy / data handle and another element type; every
+// access must ask the accessor for exactly the offset the mapping designates
+template <class E, class L> Result doMdspanAcc(const Ctx& c) {
+  using I = typename E::index_type;
+  using M = typename L::template mapping<E>;
+  using T = long long;
+  constexpr std::size_t R = E::rank();
+  E e = makeExt<E>("afull", c.ext);
+  M m = makeMap<L>(e, c.str);
+  long rss = long(m.required_span_size());
+  if (rss < 0 || rss > 1000000) { Result r; r.impl = "rss=" + std::to_string(rss); r.oracle = "FAIL required_span_size out of any sensible range"; return r; }
+  std::vector<T> v(rss);
+  for (long k = 0; k < rss; ++k) v[k] = T(k);
+  std::vector<std::size_t> log;
+  using MS = S::mdspan<T, E, L, RecAcc<T>>;
+  MS ms(Handle<T>(v.data()), m, RecAcc<T>(&log));
+  Result res;
+  auto tuples = tuplesRowMajor(c.ext);
+  auto exp = expectedOffsets(c.lay, c.ext, c.str);
+  VL elems, conv, ext;
+  std::vector<T> shadow(v);
+  for (auto& t : tuples) {
+    log.clear();
+    T& ref = std::apply([&](auto... i) -> T& { return ms(i...); }, toArr<I, R>(t));
+    if (log.size() != 1 || long(log[0]) != exp[t]) orFail(res, "mdspan", "the accessor was not asked for exactly the designated offset at " + listStr(t));
+    if (&ref != v.data() + exp[t]) orFail(res, "mdspan", "reference is not the designated element at " + listStr(t));
+    elems.push_back(long(ref));
+  }
+  long n = 0;
+  for (auto& t : tuples) {
+    ms[toArr<I, R>(t)] = T(100 + n);
+    if (exp[t] >= 0 && exp[t] < rss) shadow[exp[t]] = T(100 + n);
+    ++n;
+  }
+  if (shadow != v) orFail(res, "mdspan", "writes through the view did not hit exactly the designated elements");
+  using E3 = std::conditional_t<(!isStride<L> || strideFromAny<E>), S::dextents<OtherIndex<I>, R>, E>;
+  S::mdspan<const T, E3, L, RecAcc<const T>> ms3(ms);
+  for (auto& t : tuples) {
+    log.clear();
+    const T& r3 = std::apply([&](auto... i) -> const T& { return ms3(i...); }, toArr<typename E3::index_type, R>(t));
+    if (log.size() != 1 || long(log[0]) != exp[t] || &r3 != v.data() + exp[t]) orFail(res, "mdspan", "converted view refers to a different element at " + listStr(t));
+    conv.push_back(long(r3));
+  }
+  for (std::size_t r = 0; r < R; ++r) ext.push_back(long(ms.extent(r)));
+  if (ext != c.ext) orFail(res, "mdspan", "extents");
+  if (long(ms.size()) != (long)tuples.size() || ms.empty() != tuples.empty()) orFail(res, "mdspan", "size()/empty() do not count the index tuples");
+  if (ms.accessor().log != &log || ms.data_handle().base != v.data()) orFail(res, "mdspan", "accessor()/data_handle()");
   res.impl = "size=" + std::to_string(long(ms.size())) + " empty=" + (ms.empty() ? "true" : "false") + " ext=" + listStr(ext) +
              " elems=" + listStr(elems) + " store=" + listStr(v) + " conv=" + listStr(conv);
   return res;
@@ -480,6 +673,25 @@ Result mdarrayBody(A& a, const M& m, const Ctx& c, const std::vector<VL>& tuples
     int& r3 = accessAt(vw2, "call", toArr<I, R>(t));
     if (&r1 != a.container_data() + exp[t] || &r2 != &r1 || &r3 != &r1) orFail(res, "mdarray", "to_mdspan view refers to a different element at " + listStr(t));
     view.push_back(r1);
+  }
+  {
+    S::mdspan<const int, E, L> cv2 = std::as_const(a);  // conversion operator of a const array
+    for (auto& t : tuples)
+      if (&accessAtC(cv2, "call", toArr<I, R>(t)) != a.container_data() + exp[t]) orFail(res, "mdarray", "const conversion to mdspan refers to a different element at " + listStr(t));
+    if (cv2.extents() != a.extents()) orFail(res, "mdarray", "const conversion to mdspan changes the extents");
+    typename A::container_type ex = A(a).extract_container();
+    if (std::vector<int>(ex.begin(), ex.end()) != after) orFail(res, "mdarray", "extract_container() does not return the elements");
+  }
+  // an array over the same container but with two different dynamic extents exchanged is a different array
+  if constexpr (std::is_same_v<typename A::container_type, std::vector<int>>) {
+    for (std::size_t r1 = 0; r1 < R; ++r1)
+      for (std::size_t r2 = r1 + 1; r2 < R; ++r2)
+        if (E::static_extent(r1) == D && E::static_extent(r2) == D && c.ext[r1] != c.ext[r2]) {
+          VL pe = c.ext;
+          std::swap(pe[r1], pe[r2]);
+          A other(makeExt<E>("afull", pe), a.container());
+          if (other == a || a == other) orFail(res, "mdarray", "operator== true although the extents differ");
+        }
   }
   A b(a);  // copies own their elements
   if (!(b == a)) orFail(res, "mdarray", "copy compares unequal");
@@ -537,10 +749,33 @@ template <class E, class L> Result doMdarray(const Ctx& c) {
       expectInit = src;
     }
     else if (k == "strided") {
-      if constexpr (R > 0) {
+      if constexpr (strideFromAny<E>) {
         S::mdspan<int, E, S::layout_stride> sp(src.data(), S::layout_stride::mapping<E>(m));
         aO.emplace(sp);
         expectInit = src;
+      } else return rank0Failure();
+    }
+    else if (k == "contmve") { std::vector<int> tmp(cont); aO.emplace(e, std::move(tmp)); expectInit = cont; }
+    else if (k == "extvalal") { aO.emplace(e, 7, std::allocator<int>()); expectInit.assign(want, 7); }
+    else if (k == "contal") { aO.emplace(e, cont, std::allocator<int>()); expectInit = cont; }
+    else if (k == "contmval") { std::vector<int> tmp(cont); aO.emplace(e, std::move(tmp), std::allocator<int>()); expectInit = cont; }
+    else if (k == "mapcontal") { aO.emplace(m, cont, std::allocator<int>()); expectInit = cont; }
+    else if (k == "mapcontmval") { std::vector<int> tmp(cont); aO.emplace(m, std::move(tmp), std::allocator<int>()); expectInit = cont; }
+    else if (k == "copyal") { A a0(m, cont); aO.emplace(a0, std::allocator<int>()); expectInit = cont; }
+    else if (k == "swap") {
+      A x{E{}}, y(e, cont);
+      swap(x, y);
+      VL got;
+      long prod0 = 1;
+      for (std::size_t r = 0; r < R; ++r) { got.push_back(long(y.extent(r))); prod0 *= got.back(); }
+      if (got != defaultExt<E>() || long(y.container_size()) != prod0) orFail(res, "mdarray", "swap did not exchange container and mapping");
+      aO.emplace(x);
+      expectInit = cont;
+    }
+    else if (k == "default") {
+      if constexpr (E::rank_dynamic() > 0) {
+        if (c.ext != defaultExt<E>()) throw BadOp{};
+        aO.emplace();
       } else throw BadOp{};
     }
     else if (k == "alloc") aO.emplace(e, std::allocator<int>());
@@ -662,14 +897,14 @@ static long cnt(const std::string& s) {
 }
 
 // observations that do not change the span
-template <class SP> bool spanLook(const SP& sp, const std::vector<std::string>& w, const std::vector<int>& v, const SpanState& st,
+template <class SP> bool spanLook(const SP& sp, const std::vector<std::string>& w, const std::vector<int>& v, const int* base, const SpanState& st,
                                   std::string& out, Result& res) {
   if (w[0] == "at" && w.size() == 2) {
     long i = cnt(w[1]);
     try {
       int& r = sp.at(std::size_t(i));
       if (i >= st.size) orFail(res, "span", "at() beyond size() did not throw");
-      else if (&r != v.data() + st.off + i) orFail(res, "span", "at() refers to a different element");
+      else if (&r != base + st.off + i) orFail(res, "span", "at() refers to a different element");
       out = "at=" + std::to_string(r);
     } catch (std::out_of_range&) {
       if (i < st.size) orFail(res, "span", "at() threw for a valid index");
@@ -679,7 +914,7 @@ template <class SP> bool spanLook(const SP& sp, const std::vector<std::string>& 
   }
   if (w[0] == "fb" && w.size() == 1) {
     if (st.size == 0) throw BadOp{};
-    if (&sp.front() != v.data() + st.off || &sp.back() != v.data() + st.off + st.size - 1) orFail(res, "span", "front/back");
+    if (&sp.front() != base + st.off || &sp.back() != base + st.off + st.size - 1) orFail(res, "span", "front/back");
     out = "front=" + std::to_string(sp.front()) + " back=" + std::to_string(sp.back());
     return true;
   }
@@ -689,14 +924,14 @@ template <class SP> bool spanLook(const SP& sp, const std::vector<std::string>& 
     for (auto it = sp.rbegin(); it != sp.rend(); ++it) r.push_back(*it);
     VL wantF(v.begin() + st.off, v.begin() + st.off + st.size), wantR(wantF.rbegin(), wantF.rend());
     if (f != wantF || r != wantR) orFail(res, "span", "iteration does not visit exactly the elements");
-    for (long i = 0; i < st.size; ++i) if (&sp[i] != v.data() + st.off + i) orFail(res, "span", "operator[] refers to a different element");
+    for (long i = 0; i < st.size; ++i) if (&sp[i] != base + st.off + i) orFail(res, "span", "operator[] refers to a different element");
     if (long(sp.size_bytes()) != st.size * long(sizeof(int)) || sp.empty() != (st.size == 0)) orFail(res, "span", "size_bytes/empty");
     out = "fwd=" + listStr(f) + " rev=" + listStr(r) + " bytes=" + std::to_string(sp.size_bytes()) + " empty=" + (sp.empty() ? "true" : "false");
     return true;
   }
   if (w[0] == "conv" && w.size() == 1) {
     S::span<const int> cs(sp);
-    if (cs.data() != v.data() + st.off || long(cs.size()) != st.size) orFail(res, "span", "converted span refers to different elements");
+    if (cs.data() != base + st.off || long(cs.size()) != st.size) orFail(res, "span", "converted span refers to different elements");
     VL el(cs.begin(), cs.end());
     out = "ext=d size=" + std::to_string(cs.size()) + " elems=" + listStr(el);
     return true;
@@ -782,11 +1017,59 @@ template <std::size_t X, std::size_t... O> void tSubSel(const S::span<int, X>& s
   if (!hit) throw BadOp{};
 }
 
-template <std::size_t X> Result doSpan(long n, const std::vector<std::string>& ops) {
+template <std::size_t X> Result doSpan(long n, const std::vector<std::string>& ops, const std::string& via) {
   std::vector<int> v(n);
   for (long k = 0; k < n; ++k) v[k] = int(10 + k);
-  S::span<int, X> s(v.data(), std::size_t(n));
-  if (s.data() != v.data() || long(s.size()) != n) throw std::runtime_error("span construction");
+  // storage of compile-time size for the C-array / std::array constructors
+  constexpr std::size_t N = X == D ? 8 : (X == 0 ? 1 : X);
+  int carr[N];
+  std::array<int, N> sarr;
+  for (std::size_t k = 0; k < N; ++k) carr[k] = sarr[k] = int(10 + k);
+  const int* base = v.data();
+  std::optional<S::span<int, X>> sO;
+  if (via == "ptr") {
+    sO.emplace(v.data(), std::size_t(n));
+    S::span ded(v.data(), std::size_t(n));
+    static_assert(std::is_same_v<decltype(ded), S::span<int>>);
+    if (ded.data() != v.data() || long(ded.size()) != n) throw std::runtime_error("span deduction guide (pointer, size)");
+  } else if (via == "iters") {
+    sO.emplace(v.begin(), v.end());
+    S::span ded(v.begin(), v.end());
+    static_assert(std::is_same_v<decltype(ded), S::span<int>>);
+    if (ded.data() != v.data() || long(ded.size()) != n) throw std::runtime_error("span deduction guide (first, last)");
+  } else if (via == "range") {
+    sO.emplace(v);
+    S::span ded(v);  // (deduces span<const int> for a non-const range, unlike std::span; the elements are the same)
+    static_assert(decltype(ded)::extent == D);
+    if (ded.data() != v.data() || long(ded.size()) != n) throw std::runtime_error("span deduction guide (range)");
+  } else if (via == "carr" || via == "stdarr") {
+    if (X == 0 || n != long(N)) throw BadOp{};
+    if constexpr (X == 0) throw BadOp{};
+    else if (via == "carr") {
+      sO.emplace(carr);
+      base = carr;
+      S::span ded(carr);
+      static_assert(std::is_same_v<decltype(ded), S::span<int, N>>);
+      if (ded.data() != carr || ded.size() != N) throw std::runtime_error("span deduction guide (C array)");
+    } else {
+      sO.emplace(sarr);
+      base = sarr.data();
+      S::span ded(sarr);
+      static_assert(std::is_same_v<decltype(ded), S::span<int, N>>);
+      S::span cded(std::as_const(sarr));
+      static_assert(std::is_same_v<decltype(cded), S::span<const int, N>>);
+      if (ded.data() != sarr.data() || ded.size() != N || cded.data() != sarr.data() || cded.size() != N) throw std::runtime_error("span deduction guide (std::array)");
+    }
+  } else if (via == "def") {
+    if constexpr (X == D || X == 0) {
+      if (n != 0) throw BadOp{};
+      sO.emplace();
+      base = nullptr;
+    } else throw BadOp{};
+  } else throw BadOp{};
+  S::span<int, X>& s = *sO;
+  stat("span_via_" + via);
+  if (s.data() != base || long(s.size()) != n) throw std::runtime_error("span construction");
   S::span<int> cur(s);
   SpanState st;
   st.size = n;
@@ -810,7 +1093,7 @@ template <std::size_t X> Result doSpan(long n, const std::vector<std::string>& o
       }
       out = spanObs(st.ext, cur.data(), cur.size());
     } else {
-      bool done = first ? spanLook(s, w, v, st, out, res) : spanLook(cur, w, v, st, out, res);
+      bool done = first ? spanLook(s, w, v, base, st, out, res) : spanLook(cur, w, v, base, st, out, res);
       if (done && w[0] == "conv") st.ext = "d";
       if (!done) {
         S::span<int> nxt;
@@ -822,7 +1105,7 @@ template <std::size_t X> Result doSpan(long n, const std::vector<std::string>& o
       }
     }
     // the sub-view refers to exactly the designated elements of the storage
-    if (cur.data() != v.data() + st.off || long(cur.size()) != st.size) orFail(res, "span", "sub-span does not refer to the designated elements after '" + op + "'");
+    if (cur.data() != base + st.off || long(cur.size()) != st.size) orFail(res, "span", "sub-span does not refer to the designated elements after '" + op + "'");
     if (st.off < 0 || st.off + st.size > n) orFail(res, "span", "sub-span leaves the storage");
     obs.push_back(out);
     first = false;
@@ -836,19 +1119,20 @@ static Result execSpan(const std::string& line) {
   auto parts = line.find(" : ");
   if (parts == std::string::npos) throw BadOp{};
   auto hd = words(line.substr(0, parts));
-  if (hd.size() != 3) throw BadOp{};
+  if (hd.size() != 3 && hd.size() != 4) throw BadOp{};
+  std::string via = hd.size() == 4 ? hd[3] : "ptr";
   long n = cnt(hd[1]);
   if (n > 64) throw BadOp{};
   auto ops = split(line.substr(parts + 3), ';');
-  if (hd[2] == "d") return doSpan<D>(n, ops);
+  if (hd[2] == "d") return doSpan<D>(n, ops, via);
   long x = cnt(hd[2]);
   if (x != n) throw BadOp{};
   switch (x) {
-    case 0: return doSpan<0>(n, ops);
-    case 1: return doSpan<1>(n, ops);
-    case 2: return doSpan<2>(n, ops);
-    case 3: return doSpan<3>(n, ops);
-    case 4: return doSpan<4>(n, ops);
+    case 0: return doSpan<0>(n, ops, via);
+    case 1: return doSpan<1>(n, ops, via);
+    case 2: return doSpan<2>(n, ops, via);
+    case 3: return doSpan<3>(n, ops, via);
+    case 4: return doSpan<4>(n, ops, via);
   }
   throw BadOp{};
 }
@@ -975,8 +1259,10 @@ static VL genStrides(Rng& r, const VL& ext) {
 static const std::vector<std::string> CTORS = {"vfull", "vdyn", "afull", "adyn", "sfull", "sdyn"};
 static const std::vector<std::string> LAYS = {"left", "right", "stride"};
 static const std::vector<std::string> ACCS = {"call", "arr", "span", "br"};
+static const std::vector<std::string> MDSPAN_FORMS = {"call", "call", "arr", "arr", "span", "span", "br", "acc", "acc", "vdyn", "vfull", "adyn", "sdyn", "sfull", "def", "swap"};
 static const std::vector<std::string> ACTORS = {"ext", "extval", "map", "mapval", "cont", "contmv", "copy", "conv",
-                                                "span", "spanal", "strided", "alloc", "allocval", "variadic", "arrext", "arrval", "arrcont"};
+                                                "span", "spanal", "strided", "alloc", "allocval", "variadic", "arrext", "arrval", "arrcont",
+                                                "contmve", "extvalal", "contal", "contmval", "mapcontal", "mapcontmval", "copyal", "swap", "default"};
 
 static std::string keyIt(const std::string& key) { return key.substr(0, key.find(':')); }
 static std::string keyPat(const std::string& key) { return key.substr(key.find(':') + 1); }
@@ -986,8 +1272,17 @@ static std::string genSpan(Rng& r) {
   std::string ext;
   if (r.coin(1, 2)) { n = (long)r.below(5); ext = std::to_string(n); }
   else { n = (long)r.below(9); ext = "d"; }
+  static const std::vector<std::string> VIAS = {"ptr", "ptr", "ptr", "iters", "iters", "range", "range", "carr", "stdarr", "def"};
+  std::string via = r.pick(VIAS);
+  if (via == "carr" || via == "stdarr") {
+    if (ext == "d") n = 8;
+    else if (n == 0) via = "def";
+  }
+  if (via == "def" && n != 0 && !r.coin(1, 8)) via = "iters";  // (def with n != 0: both sides answer bad-op)
   std::ostringstream os;
-  os << "span " << n << " " << ext << " : ";
+  os << "span " << n << " " << ext;
+  if (via != "ptr" || r.coin(1, 4)) os << " " << via;
+  os << " : ";
   long size = n;
   int nops = 1 + (int)r.below(4);
   for (int i = 0; i < nops; ++i) {
@@ -1047,8 +1342,11 @@ static std::string genOne(Rng& r, const std::string& kind, const std::string& ke
     }
   } else if (kind == "mdspan") {
     std::string lay = r.pick(LAYS);
-    std::string acc = r.pick(ACCS);
+    std::string acc = r.pick(MDSPAN_FORMS);
     if (acc == "br" && R != 1) acc = "call";
+    bool anyDyn = false;
+    for (long q : patv) anyDyn = anyDyn || q < 0;
+    if (acc == "def" && !anyDyn) acc = "swap";
     os << lay << " " << acc << " " << listStr(ext);
     if (lay == "stride") os << " " << listStr(genStrides(r, ext));
   } else {  // mdarray
@@ -1060,6 +1358,13 @@ static std::string genOne(Rng& r, const std::string& kind, const std::string& ke
       bool allStatic = R > 0;
       for (long q : patv) allStatic = allStatic && q >= 0;
       if (!allStatic) ct = ct == "arrext" ? "ext" : ct == "arrval" ? "extval" : "cont";
+    }
+    if (ct == "default") {
+      bool anyDyn = false;
+      for (long q : patv) anyDyn = anyDyn || q < 0;
+      if (!anyDyn) ct = "swap";
+      else if (!r.coin(1, 10))  // (rarely keep the extents: both sides answer bad-op)
+        for (std::size_t q = 0; q < R; ++q) if (patv[q] < 0) ext[q] = 0;
     }
     os << (r.coin() ? "left" : "right") << " " << ct << " " << acc << " " << listStr(ext);
   }
